@@ -19,6 +19,7 @@ def strip : Cur → Cur
 
 @[simp] theorem strip_lastLoc (c : Cur) : (strip c).lastLoc = c.lastLoc := by cases c <;> rfl
 @[simp] theorem strip_refLoc (c : Cur) : (strip c).refLoc = c.refLoc := by cases c <;> rfl
+@[simp] theorem strip_atAlias (c : Cur) : (strip c).atAlias = c.atAlias := by cases c <;> rfl
 @[simp] theorem strip_tagUseSite (c : Cur) (l : Loc) : tagUseSite (strip c) l = tagUseSite c l := by simp [tagUseSite]
 @[simp] theorem strip_eofErr (c : Cur) : eofErr (strip c) = eofErr c := by simp [eofErr]
 @[simp] theorem strip_replay (b : List Ev) (i : Nat) (r : Option Loc) : strip (.replay b i r) = .replay b i r := rfl
